@@ -19,7 +19,7 @@
 //@ check w_c08_params     kind=bounded bound=9-parameter-types,null-patterns,rebind-and-reuse fn=run_on
 //@ check w_c09_meta       kind=bounded bound=column-counts-{0,1,3,251,300},names-up-to-70000-bytes,all-16-flag-bits fn=run_on
 //@ check w_c10_registry   kind=bounded bound=7-scripts-over-3-statement-ids fn=run_on
-//@ check w_c11_handshake  kind=bounded bound=4.1-and-3.20-layouts,5-user-names,accept-and-reject,pipelined fn=run_on
+//@ check w_c11_handshake  kind=bounded bound=4.1-and-3.20-layouts,5-user-names,accept-and-reject,pipelined,TLS-request-without-offer fn=run_on
 //@ check w_c12_flush      kind=bounded bound=pipelining-with-every-split-point-of-a-3-command-stream fn=run_on
 //@ check w_c13_errors     kind=bounded bound=all-defined-codes,4-messages,4-reporting-sites fn=run_on
 //@ check w_c14_counts     kind=bounded bound=12-u64-boundary-values-squared,zero-column-row-counts-0..=3,300 fn=run_on
@@ -946,6 +946,20 @@ fn w_c11_handshake() {
                 cases += 1;
             }
         }
+    }
+    // a client that asks for TLS (CLIENT_SSL, 0x0800) although the greeting did not offer it -- as a
+    // bare SSL request or with a complete response behind it -- is refused before any callback
+    for full in [true, false] {
+        let mut hs = hs41(b"jon", 0x0800);
+        if !full {
+            hs.truncate(32);
+        }
+        let r = converse(hs, &[(vec![0x0e], 0), quit()], vec![], false, None, None);
+        assert!(r.log.is_empty(), "[C11.w.ssl] a callback ran for a client that requested TLS without an offer: {:?}", r.log);
+        assert!(r.result.is_err(), "[C11.w.ssl] TLS request without an offer was not refused");
+        let raw = raw_packets(&r.out).expect("[C04.w.frame] not on a packet boundary");
+        assert!(raw.len() == 1, "[C11.w.ssl] something was served after the greeting: {} packets", raw.len());
+        cases += 1;
     }
     println!("VERIF-NATIVE w_c11_handshake cases={} nontrivial={}", cases, cases);
 }
